@@ -1,6 +1,6 @@
-(* Model/Evaluate.v — model of metapype/eml/evaluate.py (as of the two fix commits:
+(* Model/Evaluate.v — model of metapype/eml/evaluate.py (as of the fix commits:
    get_text_content tolerates para/markdown content None; _description_rule tolerates a
-   node without parent).  Definitions only.
+   node without parent; intellectualRights text is read with get_text_content).  Definitions only.
 
    A tree is an [ftree]; [node.parent.name] is threaded by the walk as [parent : option pystr]
    ([None] = the node has no parent).  An evaluator returns [option (list code)]: [None] is
@@ -130,7 +130,7 @@ Definition dataset_rule (node : ftree) : option (list pystr) :=
         (if match ds_coverage st with Some c => nonempty_list (ft_kids c) | None => false end
          then [] else [s "DATASET_COVERAGE_MISSING"]) ++
         (if is_some (ds_datatable st) then [] else [s "DATATABLE_MISSING"]) ++
-        (if match ds_rights st with Some r => has_content r | None => false end
+        (if match ds_rights st with Some r => nonempty (get_text_content r) | None => false end
          then [] else [s "INTELLECTUAL_RIGHTS_MISSING"]) ++
         keywords_part (ds_keywordsets st) ++
         (if is_some (ds_methods st) then [] else [s "DATASET_METHOD_STEPS_MISSING"]) ++
